@@ -572,7 +572,10 @@ def monitorOp (mu : Mon) (prev : Args) (toks : List String) (implOk : Bool) (_ou
       (if O.voters == mu.voters0 then [] else [mk "C06" "C06/fixed/voters-changed" s!"by {kind}"]) ++
       (if (O.voters.foldl (fun acc p => acc + p.2) 0) == totalCfg then [] else
         [mk "C06" "C06/fixed/total-ne-sum-voters" s!"total={totalCfg} sum_of_listed_voters={O.voters.foldl (fun acc p => acc + p.2) 0}"]) ++
-      (if cur.list "pvotes" |>.all (fun b => (cur.list "votes").contains b) then [] else [mk "C06" "C06/fixed/vote-views-differ" "Vote vs ListVotes"]) ++
+      (if cur.list "pvotes" |>.all (fun b => (cur.list "votes").contains b) then [] else
+        [mk "C06" "C06/fixed/vote-views-differ" "Vote vs ListVotes",
+         -- the complete paged walk of ListVotes misses a ballot the point query returns: the listing is not complete
+         mk "C20" "C20/votes-listing-vs-point-queries" "a ballot returned by Vote is missing from the paged ListVotes walk"]) ++
       (let ks := O.votes.map fun b => (b.id, b.addr)
        if ks.eraseDups.length == ks.length then [] else [mk "C06" "C06/fixed/two-ballots" "an address is listed twice for one proposal"]) ++
       (O.votes.flatMap fun b =>
